@@ -37,6 +37,7 @@ type Box struct {
 	Share  int    `json:"time_share"`
 
 	LeaderPropose bool     `json:"propose_at_leader_only,omitempty"`
+	CampaignAt    uint8    `json:"campaign_only_at_node,omitempty"` // 0: every node may campaign
 	KindNames     []string `json:"driver_events"`
 	DevNames      []string `json:"deviation_events,omitempty"`
 }
@@ -94,6 +95,9 @@ func (b *Box) candidates(c *cluster, dev int) []cand {
 			n := uint8(i + 1)
 			for _, k := range []uint8{evCampaign, evPropose, evHeartbeat, evCrash, evRestart, evCompact, evExpire} {
 				if k == evPropose && b.LeaderPropose && !c.nodes[i].isLeader() {
+					continue
+				}
+				if k == evCampaign && b.CampaignAt != 0 && n != b.CampaignAt {
 					continue
 				}
 				if b.has(k) && only&(1<<k) != 0 {
